@@ -40,6 +40,27 @@ def cases(tier, seed):
             yield ('SK', cm.with_ctc(m, t))
     for t in families.deep_trees():
         yield ('SK', cm.on_carrier([t]))
+    # three operator levels with implies / requires at the root and a conjunction below it, under EVERY
+    # assignment of the variables to features (the left side a core feature, the parent of an optional
+    # feature that occurs below, ...), and every ordered pair of requires rules between features
+    import itertools
+    x, y, z = cm.XYZ
+    level3 = [('IMPLIES', x, ('AND', y, ('OR', z, y))), ('IMPLIES', x, ('AND', y, ('NOT', z, None))), ('REQUIRES', x, ('AND', y, ('OR', z, x))),
+              ('IMPLIES', x, ('AND', ('OR', y, z), y)), ('IMPLIES', x, ('AND', y, ('IMPLIES', z, x))), ('IMPLIES', x, ('AND', y, ('XOR', z, y))),
+              ('IMPLIES', x, ('AND', y, ('EQUIVALENCE', z, x))), ('IMPLIES', x, ('OR', y, ('AND', z, y))), ('EXCLUDES', x, ('AND', y, ('OR', z, y)))]
+    for n in (3, 4):
+        for m in sp.structures(n):
+            nm = sh.names(m)
+            for assign in itertools.permutations(nm, 3):
+                mapping = dict(zip((x, y, z), assign))
+                for t in level3:
+                    yield ('SK', (m[0], (('c1', cm.map_names(t, mapping)),)))
+            if n == 4:
+                edges = list(itertools.permutations(nm, 2))
+                for e1 in edges:
+                    for e2 in edges:
+                        if e1 != e2:
+                            yield ('SK', (m[0], (('c1', ('REQUIRES', e1[0], e1[1])), ('c2', ('REQUIRES', e2[0], e2[1])))))
     ksets = list(cm.k1()) + list(cm.k2_subset())
     for n in range(2, n_ctc + 1):
         for m in sp.structures(n):
